@@ -455,6 +455,8 @@ func TestC19b(t *testing.T) {
 	s := loadShipped(t)
 	r := &runnerB{t: t, wh: newWebhook(t, s, s.config(t))}
 	defer setNative(false)
+	globals := injectorGlobals()
+	defer func() { assertGlobalsUnchanged(res, globals, "the whole run", nil) }()
 
 	if env.Replay != "" {
 		var c caseB
